@@ -226,6 +226,20 @@ pub fn run_generated<T: E1Case>(
                             Ok(())
                         }
                         Err(bad) => {
+                            // while shrinking, a candidate only counts as failing if it fails in
+                            // the same family (key up to the first ':') and not under the key of a
+                            // recorded finding: a violation must not shrink into a known finding
+                            let fam = |b: &Bad| match b {
+                                Bad::Violation { key, .. } => key.split(':').next().unwrap_or("").to_string(),
+                                Bad::Harness(_) => "<harness>".to_string(),
+                            };
+                            if st.frozen {
+                                let is_known = matches!(&bad, Bad::Violation { key, .. } if known.contains(key));
+                                let same = last.borrow().as_ref().map(|f0| fam(f0) == fam(&bad)).unwrap_or(true);
+                                if is_known || !same {
+                                    return Ok(());
+                                }
+                            }
                             st.frozen = true;
                             let msg = format!("{bad:?}");
                             *last.borrow_mut() = Some(bad);
